@@ -7,4 +7,6 @@ mkdir -p .build evidence replays
 cp /repo/Cargo.lock symfrost/Cargo.lock
 (cd symfrost && CARGO_TARGET_DIR=/verif/.build/symfrost cargo build --quiet)
 (cd symfrost/symcore && CARGO_TARGET_DIR=/verif/.build/symfrost cargo test --quiet)
+cp /repo/Cargo.lock symfrost-tr/Cargo.lock
+(cd symfrost-tr && CARGO_TARGET_DIR=/verif/.build/symfrost-tr cargo build --quiet)
 echo setup ok
